@@ -81,6 +81,8 @@ func NonceOfKind(kind string) int64 {
 		return n0 + 1
 	case "n-1":
 		return n0 - 1
+	case "n.5": // not on a whole second (the persistent driver's records expire on whole seconds)
+		return n0 + int64(500*time.Millisecond)
 	case "stale":
 		return now - int64(store.ExpireNonce) - 1
 	case "fresh":
